@@ -9,6 +9,7 @@
 //         C CompactEnumerableThreadLocal<int64_t,1,true> (16 per line) | E EnumerableThreadLocal<ECell> (monitors only)
 //         P<kind> concurrent reader-bounds stress (real concurrency, see run_par)
 //   ops   sp<t> ex<t> | n<c>@<t> d<c>@<t> mv<c>,<d>@<t> mc<c>,<d>@<t> | a<c>,<v>@<t> r<c>@<t> z<c>@<t>
+//         b<c>,<s>,<n>@<t>  ConcurrentSummer << Summary{s, n}  (kind S only; any sign, either half may be zero)
 //         fe<c>@<t> fa<c>@<t> (non-const ETL::for_each_alive) fc<c>@<t> (const overload)
 // stdout:  <case-id> <one token per op> | <monitor>=0/1 ... [fail=<monitor>@<op#>:<info>]
 #include "babylon/concurrent/counter.h"
@@ -92,6 +93,7 @@ struct TrSummer {
   static constexpr bool movable = false, compact = true;
   static auto& ct(Obj& o) { return o._storage; }
   static void add(Obj& o, ll v) { o << (ssize_t)v; }
+  static void add2(Obj& o, ll sm, ll nm) { o << ConcurrentSummer::Summary{(ssize_t)sm, (size_t)nm}; }
   static void read(Obj& o, ll& a, ll& b) { auto s = o.value(); a = s.sum; b = (ll)s.num; }
   static void reset(Obj&) {}
   static ll cellval(const ConcurrentSummer::Summary& c) { return c.sum; }
@@ -250,6 +252,33 @@ static void run_case(const char* id, std::vector<std::string>& ops, bool is_max)
         h[c] = nullptr; delete soul[c]; soul[c] = nullptr;
         tok = "d";
       } else tok = "-";
+    } else if (o[0] == 'b') {
+      c = (int)num_after(1);
+      size_t comma2 = o.find(',', comma + 1);
+      ll sm = num_after(comma + 1), nm = comma2 == std::string::npos ? 0 : num_after(comma2 + 1);
+      if constexpr (std::is_same<Tr, TrSummer>::value) {
+        if (c >= 0 && c < NH && h[c]) {
+          const void* p = nullptr;
+          w[t]->run([&] { Tr::add2(*h[c], sm, nm); p = V::local_addr(*h[c]); });
+          Soul& S = *soul[c];
+          S.sum += sm; S.cnt += nm; S.touched = true;
+          for (auto& kv : S.addr) {
+            if (kv.first == inc[t]) { if (kv.second != p) { m_stable = false; fail("stable", opi, "local() moved"); } }
+            else {
+              bool live = false;
+              for (int u = 0; u < NT; ++u) if (w[u] && inc[u] == kv.first) live = true;
+              if (live && kv.second == p) { m_private = false; fail("private", opi, "two live threads share a slot"); }
+            }
+          }
+          S.addr[inc[t]] = p; S.used.insert(p);
+          int idx = -1, k = 0;
+          V::each(*h[c], [&](const void* q) { if (q == p) idx = k; ++k; });
+          if (idx < 0) { m_allused = false; fail("allused", opi, "for_each misses the slot local() just returned"); }
+          if (tindex[t] >= 0 && idx >= 0 && tindex[t] != idx) { m_stable = false; fail("stable", opi, "thread index changed"); }
+          if (idx >= 0) tindex[t] = idx;
+          tok = "b=" + std::to_string(idx);
+        } else tok = "-";
+      } else tok = "-";
     } else if (o[0] == 'a') {
       c = (int)num_after(1); v = num_after(comma + 1);
       if (c >= 0 && c < NH && h[c]) {
@@ -370,7 +399,8 @@ static void run_par(const char* id, int nthreads, int adds, int reads, int churn
         ll cur = started_ext.load();
         while ((is_max ? v > cur : v < cur) && !started_ext.compare_exchange_weak(cur, v)) {}
       } else { started_sum.fetch_add(v); started_cnt.fetch_add(1); }
-      Tr::add(*obj, v);
+      if constexpr (std::is_same<Tr, TrSummer>::value) { if (i % 3 == 2) Tr::add2(*obj, v, 1); else Tr::add(*obj, v); }
+      else Tr::add(*obj, v);
       if (is_cmp) {
         ll cur = done_ext.load();
         while ((is_max ? v > cur : v < cur) && !done_ext.compare_exchange_weak(cur, v)) {}
